@@ -14,7 +14,7 @@ from tools.vlib import Outcome, sx
 from tools.props import c08_common as C
 
 MANIFEST = {
-    "level_text": "Coq theorems (Properties/C14.v, no axioms) about the run/cache state machine of Model/C08Run.v instantiated with the fingerprint of generation_cache.rs: for all states and all pairs of discovery orders (file-map order, type_mappings map order) that give the same fingerprint, a non-forced run after a successful or up-to-date run answers up to date and changes nothing; on the faithful model the fingerprint depends on the order (commands are hashed in discovery order, type_mappings in map order) - refuted by computed two-file and two-mapping witnesses, class kf_C14_order; projects whose commands sit in one file and that have at most one mapping are outside the class for every valid order; with --force or force:true every run with commands rewrites every file of the plan and the record from every cache state, and the flag can only switch forcing on. Tied to /repo by re-running 1..6-file projects in fresh processes on both entry points with the observed discovery orders fed to the extracted model, and by forced runs from the cache states absent/matching/mismatching/corrupt/other version.",
+    "level_text": "Coq theorems (Properties/C14.v, no axioms) about the run/cache state machine of Model/C08Run.v instantiated with the fingerprint of generation_cache.rs: the fingerprint of the patched code (commands sorted by (file, name), type mappings through a BTreeMap) is the same under every valid discovery order (C14_fp_order_independent, by isort_perm_invariant), so for all states and all pairs of valid orders a non-forced run after a successful or up-to-date run answers up to date and changes nothing - no order class is left, the former two-file and two-mapping witnesses are proved no-ops; a non-forced run over a record equal to the current fingerprint is a no-op whatever flags, files or -o spellings produced the inputs; remaining class kf_C14_path (the spelling of the project path enters file_path, which is hashed), refuted by a computed witness; with --force or force:true every run with commands rewrites every file of the plan and the record from every cache state, and the flag can only switch forcing on. Tied to /repo by re-running 1..6-file projects in fresh processes on both entry points with the observed discovery orders fed to the extracted model, by forced runs from the cache states absent/matching/mismatching/corrupt/other version, and by sequences of runs that spell the same effective settings differently (--force, --verbose, -v, --visualize-deps versus the file, typegen.json versus tauri.conf.json, relative/bare/absolute -p and -o).",
     "design_ref": "DESIGN.md section 5 C08, C14, C17; section 11 idempotent, isort_perm_invariant",
     "level_note": "Hash orders are sampled by fresh processes, not enumerated; on the build-script path the order of a run that answers up to date is not observable and is taken to be the order of the record it matched, and type_mappings orders are exercised on the CLI path only (hash_config is shared code); file contents are views as in C08; mtime granularity is the file system's (ns).",
     "technique": "Rocq/Coq proof over hand-written model + correspondence check (extracted OCaml vs real binary and Rust driver)"
@@ -132,11 +132,8 @@ def eval_rerun(cases):
                 step_ok = idem[(i, k)] == "true"
                 if not step_ok:
                     spurious += 1
-                    differs, files_differ, valid = (x == "true" for x in order[(i, k)])
-                    if differs and valid:
-                        kf = kf or ("C14-1" if files_differ else "C14-2")
-                    else:
-                        unknown_fail = True
+                    # no order class is left (C14_fp_order_independent): any rewriting re-run is a violation
+                    unknown_fail = True
             if (not step_corr or not step_ok) and detail is None:
                 detail = {"step": k, "impl": o, "model": mo[0]}
             corr &= step_corr
@@ -426,10 +423,11 @@ def rerun_cases(tier, rng):
         # single-file projects with 0..1 mappings are outside the class on both paths
         for rep in range(reps):
             cases.append({"entry": entry, "nfiles": 1, "structs": True, "maps": 1, "reruns": k, "rep": rep, "mode": "none"})
-    for maps in (2, 3):
-        for n in (1, 2):
-            for rep in range(reps):
-                cases.append({"entry": "cli", "nfiles": n, "structs": True, "maps": maps, "reruns": k, "rep": rep, "mode": "none"})
+    for entry in ("cli", "build"):
+        for maps in (2, 3, 4):
+            for n in (1, 2, 4):
+                for rep in range(reps):
+                    cases.append({"entry": entry, "nfiles": n, "structs": True, "maps": maps, "reruns": k, "rep": rep, "mode": "none"})
     return cases
 
 
